@@ -312,6 +312,10 @@ class Interp(Ops):
         return tuple(out)
 
     def ev_List(self, node):
+        if not node.elts and self.opts.get("sym_empty_lists") and not self.in_spec:
+            # contract option: an empty list literal of the verified function is a list of integers of symbolic
+            # length (so that a loop appending to it can be cut at an invariant)
+            return SymList(z3.K(z3.IntSort(), z3.IntVal(0)), z3.IntVal(0), "list")
         return PyList(self.ev_Tuple(node))
 
     def ev_Set(self, node):
